@@ -309,7 +309,8 @@ def scenarios(tier):
         for strat in S.STRATEGIES:
             for j in (1, 2):
                 for opts in (['--timeout', '5'], [],
-                             ['--timeout', '3', '--memout', '64']):
+                             ['--timeout', '3', '--memout', '64'],
+                             ['--memout', '32']):
                     if opts != ['--timeout', '5'] and (j == 2 or
                                                        strat == 'hybrid'):
                         continue
